@@ -448,10 +448,15 @@ def fam_reverse(rec, rng):
         check_counterexample(rec, 'check_dfa_reverse', out, LA, Lref, answer=text, dfa=t1)
 
 
-def fam_minimal(rec, rng):
+def fam_minimal(rec, rng, big=False):
     import gambatools.notebook_dfa as nd
     R = exercises.ref_dfa(rng, 6, rng.choice(['ab', 'a']), connected=True)
     n = rng.choice([4, 5, 6])
+    if big:
+        # a large reference automaton (306 states, all reachable and pairwise distinguishable, partition numbers with two and three
+        # digits); the candidate answers include what the library's own minimisers return (classified by the reference model)
+        R = fag.layered_pairs_dfa(12)
+        n = 6
     cls = fa.moore_classes(R, R[0])
     groups = {}
     for q in R[0]:
@@ -469,6 +474,14 @@ def fam_minimal(rec, rng):
         i = rng.choice(inc)
         Td[i] = (Td[i][0], Td[i][1], 'dup9')
     answers.append(('one_state_duplicated', fa.make(list(M[0]) + ['dup9'], M[1], Td, M[3], list(M[4]) + (['dup9'] if dupq in M[4] else []))))
+    if big or rng.random() < 0.3:
+        import gambatools.dfa_algorithms as da_
+        for fn in ('dfa_quotient', 'dfa_minimize', 'dfa_hopfcroft'):
+            o = call(getattr(da_, fn), adapt.build_dfa(R))
+            if o.ok:
+                answers.append(('output_of_' + fn, adapt.dfa_ref(o.value)))
+        if big:
+            answers = [a_ for a_ in answers if a_[0].startswith('output_of_') or a_[0] in ('reference', 'original_dfa')]
     for (nm, A) in answers:
         if not (fa.well_formed(A) and fa.is_total_dfa(A)):
             continue
@@ -482,6 +495,8 @@ def fam_minimal(rec, rng):
             why = 'alphabet'
         elif len(A[0]) != k:
             why = 'number_of_states'
+        elif big and fa.dfa_distinguish(A, R, tuple(R[1])) is not None:
+            why = 'language'                      # differs on a word longer than n
         text = dfa_text(A, rng)
         pok, out, o = run_checker(nd.check_dfa_minimal, t1, text, n)
         judge(rec, 'minimal', 'check_dfa_minimal', pok, why is None, why or '', out, answer=text, mutant=nm, instance=(t1, n))
@@ -895,6 +910,8 @@ def check_case(rec, case):
         if fam == 'language_from_file':
             tmpdir = tempfile.mkdtemp(prefix='vt_c12_')
             fam_language_from_file(rec, rng, tmpdir)
+        elif fam == 'minimal_big':
+            fam_minimal(rec, rng, big=True)
         else:
             globals()['fam_' + fam](rec, rng)
     finally:
@@ -910,6 +927,8 @@ def gen_cases(rec, rng, tier):
             k = max(3, per // 2)
         for _ in range(k):
             yield {'fam': fam, 'iseed': rng.randrange(10 ** 9)}
+    if rec.shard == 1:
+        yield {'fam': 'minimal_big', 'iseed': rng.randrange(10 ** 9)}
 
 
 def run(rec, rng, tier):
